@@ -115,6 +115,47 @@ def _boolop_constant_collapse(rec):
     return False
 
 
+def _repeated_call_operands(node):
+    """Texts of call-containing operands that occur twice in one and/or (through not and comparisons) or on both sides of one comparison."""
+    texts = []
+    stack = list(node.values) if isinstance(node, ast.BoolOp) else [node]
+    while stack:
+        v = stack.pop()
+        if isinstance(v, ast.BoolOp):
+            stack.extend(v.values)
+        elif isinstance(v, ast.UnaryOp) and isinstance(v.op, ast.Not):
+            stack.append(v.operand)
+        else:
+            texts.append(v)
+            if isinstance(v, ast.Compare):
+                texts.extend([v.left] + list(v.comparators))
+    seen = {}
+    for t in texts:
+        if any(isinstance(n, ast.Call) for n in ast.walk(t)):
+            key = ast.unparse(t)
+            seen[key] = seen.get(key, 0) + 1
+    return [k for k, n in seen.items() if n >= 2]
+
+
+@classifier("boolean-simplification-treats-repeated-calls-as-one-value")
+def _boolop_repeated_calls(rec):
+    """simplify_boolean_expressions(_symmath) reason about operands by their text: the same call written twice in one condition
+    (`f() > 3 and f() > 5`, `f() or f()`, `f() and not f()`, `f() == f()`) is taken to be one value without effects, and one of the calls (or
+    the whole condition) is dropped. The repository's own expectations contain such a case (`x and y and f(x(3)) and not f(x(3))` -> False)."""
+    rule, before, after = _step(rec)
+    if rule not in ("symbolic_math.simplify_boolean_expressions", "symbolic_math.simplify_boolean_expressions_symmath") or rec.get("kind") not in (
+            "folded_program_behaves_differently", "step_changes_behaviour", "program_behaves_differently", "formula_value_differs", "deleted_code_was_observable"):
+        return False
+    tb, ta = _parse(before or ""), _parse(after or "")
+    if tb is None or ta is None:
+        return False
+    kept = {ast.unparse(n) for n in ast.walk(ta) if isinstance(n, (ast.BoolOp, ast.Compare))}
+    for node in ast.walk(tb):
+        if isinstance(node, (ast.BoolOp, ast.Compare)) and ast.unparse(node) not in kept and _repeated_call_operands(node):
+            return True
+    return False
+
+
 _LITERAL_NODES = (ast.Constant, ast.UnaryOp, ast.BinOp, ast.Compare, ast.BoolOp, ast.Tuple, ast.List, ast.Set, ast.Dict, ast.IfExp,
                   ast.operator, ast.unaryop, ast.cmpop, ast.boolop, ast.expr_context)
 
